@@ -337,7 +337,7 @@ def hist_check(prop, tier, seed, runs, workers, secs):
         "jit_page_alloc_fail": counters.get("fault_jit_page_alloc_fail_fired", 0),
     }
     level_rule = (
-        "Each evaluation is one seeded API history (5-40 operations over one VM kind, swarm-configured, with injected verifier "
+        "Each evaluation is one seeded API history (5-%d operations over one VM kind, swarm-configured, with injected verifier " % cfg["max_ops"] +
         "vetoes and JIT code-page allocation failures) executed against the real VM, an abstract model and a fresh single-use VM. "
         "A run is non-trivial if it contains a successful load, a successful compilation and an execution after a state-changing call; "
         "distinct_nontrivial counts distinct history signatures (hash of the sequence of (operation kind, outcome, abstract state)) among non-trivial runs."
